@@ -114,11 +114,14 @@ func (this *Allocator) run() {
 			if change == nil {
 				continue
 			}
+			// Proposals wait for the catalogue (zero group) to apply them. The goroutine
+			// that applies the catalogue hands partitions and node changes over to this
+			// loop, so this loop must never wait for a proposal itself.
 			switch change.Type {
 			case cluster.NodesChangeAddNode:
-				this.addNodeToPartitions(change.NodeId)
+				go this.addNodeToPartitions(change.NodeId)
 			case cluster.NodesChangeRemoveNode:
-				this.removeNodeFromPartitions(change.NodeId)
+				go this.removeNodeFromPartitions(change.NodeId)
 			}
 		case update := <-this.updatesC:
 			if update == nil {
@@ -174,11 +177,21 @@ func (this *Allocator) canModifyPartition(partition *partition) bool {
 	return this.clusterConn.Id() == this.clusterConn.NodeIds()[0]
 }
 
-func (this *Allocator) addNodeToPartitions(nodeId uint64) {
+// Returns watched partitions. The lock must not be held while proposing:
+// watch/unwatch are called by the goroutine that applies the proposals.
+func (this *Allocator) watchedPartitions() []*partition {
 	this.partitionsMu.RLock()
 	defer this.partitionsMu.RUnlock()
 
+	partitions := make([]*partition, 0, len(this.partitions))
 	for _, partition := range this.partitions {
+		partitions = append(partitions, partition)
+	}
+	return partitions
+}
+
+func (this *Allocator) addNodeToPartitions(nodeId uint64) {
+	for _, partition := range this.watchedPartitions() {
 		if this.canModifyPartition(partition) && partition.isUnderReplicated() {
 			partition.proposeAddNode(this.ctx, nodeId)
 		}
@@ -186,10 +199,7 @@ func (this *Allocator) addNodeToPartitions(nodeId uint64) {
 }
 
 func (this *Allocator) removeNodeFromPartitions(nodeId uint64) {
-	this.partitionsMu.RLock()
-	defer this.partitionsMu.RUnlock()
-
-	for _, partition := range this.partitions {
+	for _, partition := range this.watchedPartitions() {
 		if this.canModifyPartition(partition) {
 			partition.proposeRemoveNode(this.ctx, nodeId)
 		}
